@@ -4,13 +4,21 @@
            (noret: the front end found that the body cannot complete and added no implicit return)
            S ::= (decli A) | (assi <i> A) | (declb E) | (assb <j> E)
                | (write (lit z)) | (write (chr c)) | (write (byte A)) | (writeln)
+               | (writei 0|1 A) | (writeb 0|1 E)      write / writeln (1) of an int / a bool
                | (if E (S ...) (S ...)) | (while E (S ...) (S ...)) | (block S ...)
                | (break) | (continue)
+               | (decldiv div|mod A A) | (assdiv <i> div|mod A A)     int x = a / b;  xi = a % b;
+               | (call none <f> A ...) | (call decl <f> A ...) | (call assign <i> <f> A ...)
+               | (return) | (return A)
            E ::= (lit 0|1) | (bvar j) | (cmp OP A A) | (not E) | (and E E) | (or E E)
            A ::= (i k) | (n z) | (ar add|sub|mul A A) | (un neg|pos A)
            int locals are numbered in declaration order (the parameters first), bool locals
            likewise; a block's locals go out of scope at its end.
-   stdout: one line per body: "need <N>" (Model.need_stmts: the largest frame offset reached),
+           or a whole program:           prog <w> <stack_size> (fun <nparams> S ...) ...
+           (function 0 is the entry point; bodies are checked trees, with the final `return;`)
+   stdout: for a program: the lines of the state section (Model.state_section) and of the code
+           section up to the runtime library (Model.lower_program), tab-separated;
+           one line per body: "need <N>" (Model.need_stmts: the largest frame offset reached),
            then the lines of Model.lower_body (statements + implicit return), tab-separated,
            each rendered by Model.print_aline. *)
 open Hidlowerstmt_core
@@ -71,6 +79,9 @@ let op_of = function
 let aop_of = function
   | "add" -> SAdd | "sub" -> SSub | "mul" -> SMul
   | s -> failwith ("bad arithmetic operator " ^ s)
+let dop_of = function
+  | "div" -> SDiv | "mod" -> SMod
+  | s -> failwith ("bad division operator " ^ s)
 let rec opd_of = function
   | L [Atom "i"; Atom k] -> OVar (nat_of_int (int_of_string k))
   | L [Atom "n"; Atom z] -> OLit (z_of_string z)
@@ -100,18 +111,39 @@ let rec stmt_of = function
   | L [Atom "assb"; Atom j; e] -> SAssignB (nat_of_int (int_of_string j), expr_of e)
   | L [Atom "write"; x] -> SWrite (wexpr_of x)
   | L [Atom "writeln"] -> SWriteln
+  | L [Atom "writei"; Atom ln; a] -> SWriteI (ln = "1", opd_of a)
+  | L [Atom "writeb"; Atom ln; e] -> SWriteB (ln = "1", expr_of e)
   | L [Atom "if"; e; L s1; L s2] -> SIf (expr_of e, stmts_of s1, stmts_of s2)
   | L [Atom "while"; e; L b; L k] -> SWhile (expr_of e, stmts_of b, stmts_of k)
   | L (Atom "block" :: ss) -> SBlock (stmts_of ss)
   | L [Atom "break"] -> SBreak
   | L [Atom "continue"] -> SContinue
+  | L [Atom "decldiv"; Atom op; a; b] -> SDeclDiv (dop_of op, opd_of a, opd_of b)
+  | L [Atom "assdiv"; Atom i; Atom op; a; b] -> SAssignDiv (nat_of_int (int_of_string i), dop_of op, opd_of a, opd_of b)
+  | L (Atom "call" :: Atom "none" :: Atom f :: args) -> SCall (DNone, nat_of_int (int_of_string f), List.map opd_of args)
+  | L (Atom "call" :: Atom "decl" :: Atom f :: args) -> SCall (DDecl, nat_of_int (int_of_string f), List.map opd_of args)
+  | L (Atom "call" :: Atom "assign" :: Atom i :: Atom f :: args) ->
+    SCall (DAssign (nat_of_int (int_of_string i)), nat_of_int (int_of_string f), List.map opd_of args)
+  | L [Atom "return"] -> SReturn None
+  | L [Atom "return"; a] -> SReturn (Some (opd_of a))
   | _ -> failwith "bad statement"
 and stmts_of = function
   | [] -> SNil
   | s :: r -> SCons (stmt_of s, stmts_of r)
 
+let fun_of = function
+  | L (Atom "fun" :: Atom np :: ss) -> { fn_params = nat_of_int (int_of_string np); fn_body = stmts_of ss }
+  | _ -> failwith "bad function"
+
 let run_line (line : string) : string =
   match tokenize line with
+  | "prog" :: w :: stack :: rest ->
+    let wz = z_of_int (int_of_string w) in
+    let funs = List.map fun_of (parse_all rest) in
+    let np = match funs with f :: _ -> f.fn_params | [] -> failwith "no entry point" in
+    String.concat "\t"
+      (List.map (fun d -> string_of_chars (print_dline d)) (state_section (z_of_int (int_of_string stack)) np)
+       @ ("%section code" :: List.map (fun l -> string_of_chars (print_aline l)) (lower_program wz funs)))
   | w :: np :: rt :: rest ->
     let s0 = is_you_senv (z_of_int (int_of_string w)) (nat_of_int (int_of_string np)) in
     let ss = stmts_of (parse_all rest) in
